@@ -76,6 +76,13 @@ CHECKS.update({
         note='float(text) == tabulated decimal is Python and not decided', ref='3 C20'),
 })
 
+CHECKS.update({
+    'C10': dict(
+        level='other', technique='abstract interpretation of the DiskChopper methods on both rotation senses (path enumeration over the sense predicate); CFG guard rules for validation',
+        text='Static necessary conditions: the time offset of an angle is (beam_position+phase-theta_rep)/omega (+ one period iff anticlockwise) in float64 without integer unit conversion; open/close use complementary edges by rotation sense with the same repetition count and close-open = (end-begin)/|omega|; validation and the 1e-8 integer-ratio check guard every path; overlap is checked between neighbours and across top-dead-centre; from_disk_chopper feeds one pulse frequency and the same offsets to both edges.',
+        note='maximality / completeness / once-per-rotation of the produced openings are runtime sets and not decided', ref='3 C10'),
+})
+
 NA_REASON = 'check not built yet (planned: see DESIGN.md section 3)'
 
 
